@@ -16,6 +16,8 @@ VERIF = os.path.dirname(os.path.dirname(os.path.abspath(__file__)))
 LEAN = os.path.join(VERIF, "lean")
 REPO = os.environ.get("YNCA_REPO", "/repo")
 PY = "/venv/bin/python"
+if REPO not in sys.path:
+    sys.path.insert(0, REPO)          # the working tree under verification takes precedence over any installed copy
 ALLOWED_AXIOMS = {"propext", "Classical.choice", "Quot.sound"}
 FORBIDDEN = ["sorry", "admit", "native_decide", "bv_decide", "implemented_by", "unsafe ", "maxHeartbeats 0", "axiom "]
 DRIVER = os.path.join(LEAN, ".lake", "build", "bin", "ynca_model")
